@@ -1198,7 +1198,7 @@ def check(run):
 
     run_witnesses(run, unit, model, d)
 
-    n = 400 if quick else 20000
+    n = 320 if quick else 20000
     cases = []
     # corpus first
     cp = os.path.join(V.ROOT, "corpus", "C04_cases.txt")
